@@ -82,7 +82,20 @@ E2(op) == {a \in (IF op \in UnaryFns \cup {"neg"}
                   THEN UNION {Apply1(op, e) : e \in Inner}
                   ELSE UNION {Apply2(op, e, Leaves[i]) \cup Apply2(op, Leaves[i], e) : e \in Inner, i \in 1..Len(Leaves)})
              : InModel(a) /\ Eval(a).k \in {"tree", "err"}}
-ExprCases(op) == {a \in E1(op) : Eval(a).k \in {"tree", "err"}} \cup E2(op)
+(* top-level `let` (re-use of a bound tree, shadowing of the axes) and remap *)
+LetCases(op) == IF op \in UnaryFns \cup {"neg"}
+                THEN {ALet("t", AInfix("+", AVar("x"), AInt(1)), a) : a \in Apply1(op, AVar("t"))}
+                     \cup {ALet("y", AArr(<<AVar("x"), AVar("z")>>), a) : a \in Apply1(op, AVar("y"))}
+                ELSE UNION {{ALet("t", AInfix("*", AVar("y"), AFlt(1, 2)), a) : a \in Apply2(op, AVar("t"), AVar("t"))},
+                            {ALet("x", AInt(2), a) : a \in Apply2(op, AVar("x"), AVar("y"))},
+                            {ALet("x", AVar("y"), ALet("y", AVar("z"), a)) : a \in Apply2(op, AVar("x"), AVar("y"))}}
+RemapCases == UNION {{ACall("remap", <<t, AVar("y"), AInfix("+", AVar("x"), AInt(1)), AVar("z")>>),
+                      ACall("remap", <<t, AVar("y"), AVar("x")>>),
+                      ACall("remap", <<t, AInt(1), AVar("x"), AVar("z")>>)}
+                     : t \in {AVar("x"), AInfix("-", AVar("x"), AVar("z")), AInt(3), AArr(<<AVar("x"), AVar("y")>>)}}
+               \cup {AMeth("remap", <<AInfix("*", AVar("x"), AVar("y")), AVar("z"), AVar("x")>>)}
+ExprCases(op) == {a \in E1(op) \cup LetCases(op) : Eval(a).k \in {"tree", "err"}} \cup E2(op)
+                 \cup (IF op = "+" THEN RemapCases ELSE {})
 
 Init == \/ \E i \in 1..Len(Meta) : c = <<"start", i>>
         \/ \E op \in AllOps : c = <<"op", op>>
